@@ -34,6 +34,7 @@ ALPHA = [2, 3, 4, 5, 6, 7, 0]
 R2 = X.all_matrices_up_to_relabelling(2, ALPHA)
 R3 = X.all_matrices_up_to_relabelling(3, ALPHA)
 MAX_MODEL_STATES = 1500
+EVEN_CPU_LIMIT = 1.5
 
 
 def _variants(rng, M):
@@ -189,7 +190,11 @@ def run_even(inp):
     G = X.build_group(inp["spec"])
     names = list(G.ordered_gens)
     aut = G.automaton(shortlex=inp["lex"], even_length=False)
-    ev = G.automaton(shortlex=inp["lex"], even_length=True)
+    # automaton_multiple re-expands vertices that are queued more than once: its running time is exponential in the
+    # depth for large automata (a performance problem, not a language error) -> CPU-time limit, case skipped when hit
+    done, ev = X.limited(EVEN_CPU_LIMIT, lambda: G.automaton(shortlex=inp["lex"], even_length=True))
+    if not done:
+        return {"skipped": "even_automaton exceeded the CPU limit", "nstates": len(aut.graph_dict)}
     n = len(names)
     tab = [[aut.graph_dict.get(s, {}).get(names[k]) for k in range(n)] for s in range(len(aut.graph_dict))]
     lab = {names[a] + names[b]: a * n + b for a in range(n) for b in range(n)}
@@ -198,7 +203,7 @@ def run_even(inp):
 
 
 def lean_even(inp, obs):
-    if "exc" in obs or len(obs["table"]) > MAX_MODEL_STATES:
+    if "exc" in obs or "skipped" in obs or len(obs["table"]) > MAX_MODEL_STATES:
         return []
     return [{"op": "c07.even", "rank": obs["n"], "table": obs["table"], "fuel": 100000}]
 
@@ -206,7 +211,7 @@ def lean_even(inp, obs):
 def judge_even(inp, obs, lr):
     if "exc" in obs:
         return {"expected": "even automaton", "observed": obs, "tags": {"exc": obs["exc"]}, "property_failure": True}
-    if not lr:
+    if not lr or "skipped" in obs:
         return None
     if "err" in lr[0]:
         return {"expected": "model answer", "observed": lr[0], "tags": {"driver_err": lr[0]["err"][:40]}}
@@ -315,10 +320,11 @@ def run_lang(inp):
     names = list(G.ordered_gens)
     geo = G.automaton(shortlex=False)
     lex = G.automaton(shortlex=True)
-    geo_e = G.automaton(shortlex=False, even_length=True)
-    lex_e = G.automaton(shortlex=True, even_length=True)
+    done, evs = X.limited(2 * EVEN_CPU_LIMIT, lambda: (G.automaton(shortlex=False, even_length=True),
+                                                       G.automaton(shortlex=True, even_length=True)))
     A_geo, A_lex = accepted(geo, names, L), accepted(lex, names, L)
-    A_geo_e, A_lex_e = accepted(geo_e, names, L - L % 2, even=True), accepted(lex_e, names, L - L % 2, even=True)
+    if done:
+        A_geo_e, A_lex_e = accepted(evs[0], names, L - L % 2, even=True), accepted(evs[1], names, L - L % 2, even=True)
     levels = tits_solver(M, L)
     reduced = set().union(*[set().union(*lv) if lv else set() for lv in levels])
     nf = {min(c) for lv in levels for c in lv}
@@ -335,7 +341,7 @@ def run_lang(inp):
         bad["shortlex"] = {"accepted_not_normal_form": sorted(A_lex - nf)[:3], "normal_form_not_accepted": sorted(nf - A_lex)[:3]}
     ev_geo = {w for w in A_geo if len(w) % 2 == 0}
     ev_lex = {w for w in A_lex if len(w) % 2 == 0}
-    if A_geo_e != ev_geo or A_lex_e != ev_lex:
+    if done and (A_geo_e != ev_geo or A_lex_e != ev_lex):
         bad["even"] = {"geo_diff": sorted(A_geo_e ^ ev_geo)[:3], "lex_diff": sorted(A_lex_e ^ ev_lex)[:3]}
     # the library's own enumeration agrees with the direct traversal (single-character names only)
     if inp["style"] == "alpha":
@@ -386,6 +392,7 @@ def run_lang(inp):
         if key(A1) not in img:
             bad["api_image"] = {"word": list(w)}
     out["bad"] = bad
+    out["even_checked"] = done
     out["growth_lex"] = growth_lex
     out["n_reduced"] = len(reduced)
     return out
